@@ -18,8 +18,8 @@ contract("C01", "ensemble_advance_walker", native=False, replay_with="stationary
 
 # C01.hmc.reversible_proposal: imported from C07 (the structure of the trajectory map that generates the proposal)
 from contracts.c07_hamiltonian import standard_leapfrog_structure, bounded_leapfrog_structure
-contract("C01", "standard_leapfrog_structure", native=False, replay_with="stationary_moments_native")(standard_leapfrog_structure)
-contract("C01", "bounded_leapfrog_structure", native=False, replay_with="stationary_moments_native")(bounded_leapfrog_structure)
+contract("C01", "standard_leapfrog_structure", native=False, replay_with="hmc_trajectory_native", tags=("structural",))(standard_leapfrog_structure)
+contract("C01", "bounded_leapfrog_structure", native=False, replay_with="hmc_trajectory_native", tags=("structural",))(bounded_leapfrog_structure)
 
 
 # ---- bounded layer: the samplers reproduce the moments of a known target ----------------------------------------------
